@@ -16,6 +16,7 @@ enforce: memrec_find_var
 backend: sat
 loops: 1
 timeout: 280
+mem: 14
 */
 /*@unit
 name: table.add_var.shape
@@ -23,8 +24,9 @@ define: U_ADD, MEM_PART=1, VERIF_MEMHASH_REALLOC_ELEM_T=spifmem_ptr_t, VERIF_MEM
 debug: 5
 src: mem.c
 enforce: memrec_add_var
-backend: sat,z3
+backend: sat
 timeout: 280
+mem: 14
 */
 /*@unit
 name: table.add_var.records
@@ -32,8 +34,9 @@ define: U_ADD, MEM_PART=2, VERIF_MEMHASH_REALLOC_ELEM_T=spifmem_ptr_t, VERIF_MEM
 debug: 5
 src: mem.c
 enforce: memrec_add_var
-backend: sat,z3
+backend: sat
 timeout: 280
+mem: 14
 */
 /*@unit
 name: table.add_var.nodup
@@ -41,8 +44,9 @@ define: U_ADD, MEM_PART=3, VERIF_MEMHASH_REALLOC_ELEM_T=spifmem_ptr_t, VERIF_MEM
 debug: 5
 src: mem.c
 enforce: memrec_add_var
-backend: sat,z3
+backend: sat
 timeout: 280
+mem: 14
 */
 /*@unit
 name: table.rem_var.shape
@@ -53,6 +57,7 @@ enforce: memrec_rem_var
 replace: memrec_find_var
 backend: z3,sat
 timeout: 280
+mem: 14
 */
 /*@unit
 name: table.rem_var.records
@@ -63,6 +68,7 @@ enforce: memrec_rem_var
 replace: memrec_find_var
 backend: z3,sat
 timeout: 280
+mem: 14
 */
 /*@unit
 name: table.rem_var.nodup
@@ -73,6 +79,7 @@ enforce: memrec_rem_var
 replace: memrec_find_var
 backend: z3,sat
 timeout: 280
+mem: 14
 */
 /*@unit
 name: table.chg_var.shape
@@ -81,8 +88,9 @@ debug: 5
 src: mem.c
 enforce: memrec_chg_var
 replace: memrec_find_var
-backend: sat,z3
+backend: sat
 timeout: 280
+mem: 14
 */
 /*@unit
 name: table.chg_var.records
@@ -91,8 +99,9 @@ debug: 5
 src: mem.c
 enforce: memrec_chg_var
 replace: memrec_find_var
-backend: sat,z3
+backend: sat
 timeout: 280
+mem: 14
 */
 /*@unit
 name: table.chg_var.nodup
@@ -101,8 +110,9 @@ debug: 5
 src: mem.c
 enforce: memrec_chg_var
 replace: memrec_find_var
-backend: sat,z3
+backend: sat
 timeout: 280
+mem: 14
 */
 #include "vprelude.h"
 #include "env_memhash.h"
